@@ -5,6 +5,7 @@ import (
 	"encoding/json"
 	"errors"
 	"fmt"
+	"runtime/debug"
 	"sort"
 	"strings"
 
@@ -330,16 +331,40 @@ func shortIDs(ids []string) string {
 	return "[" + strings.Join(s, " ") + "]"
 }
 
-// guardLivelock runs f and reports whether it was aborted by the provider's
-// unbounded-loop guard.
-func guardLivelock(f func()) (aborted bool) {
+// guard runs a library call. It reports whether the call was aborted by the
+// provider's unbounded-loop guard; a panic inside the library becomes a
+// violation of the property in focus (oracle "panic", signature = panic site)
+// so that a recorded known finding lets the run continue.
+func guard(r *sim.Run, op string, f func()) (aborted bool) {
 	defer func() {
 		if p := recover(); p != nil {
 			if _, ok := p.(livelockAbort); ok {
 				aborted = true
 				return
 			}
-			panic(p)
+			if fmt.Sprintf("%T", p) == "sim.abortRun" {
+				panic(p)
+			}
+			st := string(debug.Stack())
+			site := "harness"
+			for _, ln := range strings.Split(st, "\n") {
+				ln = strings.TrimSpace(ln)
+				if strings.HasPrefix(ln, "github.com/matrix-org/gomatrixserverlib") && !strings.Contains(ln, "verifrt") {
+					if i := strings.LastIndex(ln, "("); i > 0 {
+						ln = ln[:i]
+					}
+					site = strings.TrimPrefix(ln, "github.com/matrix-org/gomatrixserverlib.")
+					break
+				}
+			}
+			if site == "harness" {
+				panic(p)
+			}
+			if len(st) > 3000 {
+				st = st[:3000]
+			}
+			aborted = true
+			r.Violate(r.Prop, "panic", site, "%s: library panicked: %v\n%s", op, p, st)
 		}
 	}()
 	f()
